@@ -180,3 +180,144 @@ func SavePairStress(base string, d time.Duration, emit func(Ev)) {
 	wg.Wait()
 	emit(Ev{"ev": "Stress", "scen": 0, "saves": saves.Load(), "reads": reads, "badReads": bad, "refused": refused.Load(), "firstBad": firstBad})
 }
+
+// ---- C18: create / rename of the same target at the same moment (DagNames.tla) ---------------------------------------
+
+type NamesScenario struct {
+	Scen  int         `json:"scen"`
+	Src   string      `json:"src"`
+	Steps []CacheStep `json:"steps"` // a: check | act | save, r: c1 | c2 | r
+}
+
+func RunNames(sc NamesScenario, base string, emit func(Ev)) error {
+	dir := filepath.Join(base, fmt.Sprintf("names%d", sc.Scen))
+	os.MkdirAll(dir, 0o755)
+	defer os.RemoveAll(dir)
+	texts := map[string]string{"m-text": apiTexts["A"], "tpl:c1": apiTexts["B"], "tpl:c2": apiTexts["C"], "edited": apiTexts["D"]}
+	os.WriteFile(filepath.Join(dir, "m.yaml"), []byte(texts["m-text"]), 0o644)
+	id := func(name string) string {
+		b, err := os.ReadFile(filepath.Join(dir, name+".yaml"))
+		if err != nil {
+			return "absent"
+		}
+		for k, t := range texts {
+			if string(b) == t {
+				return k
+			}
+		}
+		if len(b) == 0 {
+			return "empty"
+		}
+		return "partial"
+	}
+	var mu sync.Mutex
+	arrive := map[int64]chan string{}
+	release := map[int64]chan struct{}{}
+	local.VerifHook = func(point, f string) {
+		if point != "create.checked" && point != "rename.checked" {
+			return
+		}
+		gid := goid()
+		mu.Lock()
+		a, r := arrive[gid], release[gid]
+		mu.Unlock()
+		if a == nil {
+			return
+		}
+		a <- point
+		<-r
+	}
+	defer func() { local.VerifHook = nil }()
+	ds := local.NewDAGStore(&local.NewDAGStoreArgs{Dir: dir})
+	type actor struct {
+		arrive  chan string
+		release chan struct{}
+		done    chan error
+	}
+	parked := map[string]*actor{}
+	started := map[string]bool{}
+	emit(Ev{"ev": "Reset", "scen": sc.Scen, "src": sc.Src})
+	infra := func(err error) error {
+		emit(Ev{"ev": "Infra", "scen": sc.Scen, "err": err.Error()})
+		return err
+	}
+	step := func(a, r, res string) {
+		emit(Ev{"ev": "Step", "scen": sc.Scen, "a": a, "r": r, "res": res, "n": id("n"), "m": id("m")})
+	}
+	act := func(name string) error {
+		a := parked[name]
+		if a == nil {
+			return nil
+		}
+		a.release <- struct{}{}
+		select {
+		case err := <-a.done:
+			delete(parked, name)
+			if err == nil {
+				step("act", name, "ok")
+			} else {
+				step("act", name, "refused")
+			}
+			return nil
+		case <-time.After(20 * time.Second):
+			return fmt.Errorf("operation does not return")
+		}
+	}
+	for _, st := range sc.Steps {
+		switch st.A {
+		case "check":
+			if started[st.R] {
+				continue
+			}
+			started[st.R] = true
+			a := &actor{arrive: make(chan string), release: make(chan struct{}), done: make(chan error, 1)}
+			ready := make(chan struct{})
+			name := st.R
+			go func() {
+				gid := goid()
+				mu.Lock()
+				arrive[gid], release[gid] = a.arrive, a.release
+				mu.Unlock()
+				close(ready)
+				var err error
+				if name == "r" {
+					err = ds.Rename("m", "n")
+				} else {
+					_, err = ds.Create("n", []byte(texts["tpl:"+name]))
+				}
+				mu.Lock()
+				delete(arrive, gid)
+				delete(release, gid)
+				mu.Unlock()
+				a.done <- err
+			}()
+			<-ready
+			select {
+			case <-a.arrive:
+				parked[st.R] = a
+				step("check", st.R, "checked")
+			case err := <-a.done:
+				if err == nil {
+					return infra(fmt.Errorf("operation finished without passing its gate"))
+				}
+				step("check", st.R, "refused")
+			case <-time.After(20 * time.Second):
+				return infra(fmt.Errorf("operation did not reach its gate"))
+			}
+		case "act":
+			if err := act(st.R); err != nil {
+				return infra(err)
+			}
+		case "save":
+			if err := ds.UpdateSpec("n", []byte(texts["edited"])); err == nil {
+				step("save", "", "ok")
+			}
+		}
+	}
+	for _, n := range []string{"c1", "c2", "r"} {
+		if err := act(n); err != nil {
+			return infra(err)
+		}
+	}
+	return nil
+}
